@@ -1,68 +1,42 @@
+FORMAT = 2  # layout that keeps the step times (the first layout numbered the steps 1.0, 2.0, ... when reading them back)
+
+
 def compress_settings(settings):
-    #           scenario_manager: scenario: value_type:  value: [float]
-    scenario_managers = dict[str, dict[str, dict[str, dict[str, [float]]]]]()
-        
-    for step in settings.keys():
-        # loop over all scenario managers in the step
-        for scenario_manager_name in settings[step]:
-            scenario_manager = settings[step][scenario_manager_name]
-            
-            if not scenario_manager_name in scenario_managers:
-                scenario_managers[scenario_manager_name] = dict()
-            
-            # loop over all scenarios in the current scenario manager for the current step
-            for scenario in scenario_manager:
-                
-                if not scenario in scenario_managers[scenario_manager_name]:
-                    scenario_managers[scenario_manager_name][scenario] = dict()
-                current_scenario_transformed = scenario_managers[scenario_manager_name][scenario]
-                
-                # loop over all value types in the current scenario in the current scenario manager for the current step.
-                # a value type might for example be "constants"
-                for value_type in scenario_manager[scenario]:
-                    if not value_type in current_scenario_transformed:
-                        current_scenario_transformed[value_type] = dict()
-                    
-                    # add the values in a flattened format 
-                    for constant in scenario_manager[scenario][value_type]:
-                        constant_value = scenario_manager[scenario][value_type][constant]
-                        if not constant in current_scenario_transformed[value_type]:
-                            current_scenario_transformed[value_type][constant] = [constant_value]
-                        else:
-                            current_scenario_transformed[value_type][constant].append(constant_value)
-    return scenario_managers
+    # the settings of the steps in step order; a step without settings (None) or with empty settings ({}) stays what it is
+    steps = list(settings.keys())
+    return {"__format__": FORMAT, "steps": steps, "settings": [settings[step] for step in steps]}
 
 
 def compress_results(results):
-    #           scenario_manager: scenario: value_name: [float]
+    # one list of values per equation, aligned with the list of step times
+    steps = list(results.keys())
     scenario_managers = dict[str, dict[str, dict[str, [float]]]]()
-    
-    for step in results.keys():
-        # loop over all scenario managers in the step
+
+    for index, step in enumerate(steps):
         for scenario_manager_name in results[step]:
             scenario_manager = results[step][scenario_manager_name]
-            
+
             if not scenario_manager_name in scenario_managers:
                 scenario_managers[scenario_manager_name] = dict()
-            
-            # loop over all scenarios in the current scenario manager for the current step
+
             for scenario in scenario_manager:
-                
                 if not scenario in scenario_managers[scenario_manager_name]:
                     scenario_managers[scenario_manager_name][scenario] = dict()
                 current_scenario_transformed = scenario_managers[scenario_manager_name][scenario]
-                
-                # loop over all constants in the current scenario in the current scenario manager for the current step.
-                # add the constant to the current scenario
+
                 for constant in scenario_manager[scenario]:
-                    constant_value = scenario_manager[scenario][constant][step]
                     if not constant in current_scenario_transformed:
-                        current_scenario_transformed[constant] = [constant_value]
-                    else:
-                        current_scenario_transformed[constant].append(constant_value)
-    return scenario_managers
+                        current_scenario_transformed[constant] = [None] * len(steps)
+                    step_values = scenario_manager[scenario][constant]
+                    # the value is keyed by the step time (a float, or its string form after a JSON round trip)
+                    current_scenario_transformed[constant][index] = step_values[step] if step in step_values else list(step_values.values())[0]
+    return {"__format__": FORMAT, "steps": steps, "series": scenario_managers}
+
 
 def decompress_settings(settings):
+    if "__format__" in settings:
+        return {step: step_settings for step, step_settings in zip(settings["steps"], settings["settings"])}
+
     #               step: scenarioManager:  scenario:    constants:   constant: value
     result = dict[str, dict[str, dict[str, dict[str, dict[str, float]]]]]()
     
@@ -96,6 +70,19 @@ def decompress_settings(settings):
     return result
 
 def decompress_results(results):
+    if "__format__" in results:
+        result = dict()
+        for index, step in enumerate(results["steps"]):
+            result[step] = dict()
+            for scenario_manager_name in results["series"]:
+                result[step][scenario_manager_name] = dict()
+                for scenario_name in results["series"][scenario_manager_name]:
+                    result[step][scenario_manager_name][scenario_name] = dict()
+                    for constant_name, values in results["series"][scenario_manager_name][scenario_name].items():
+                        if values[index] is not None:
+                            result[step][scenario_manager_name][scenario_name][constant_name] = {step: values[index]}
+        return result
+
     #               step: scenarioManager:  scenario:    constants:   constant: value
     result = dict[str, dict[str, dict[str, dict[str, dict[str, float]]]]]()
     
